@@ -488,8 +488,8 @@ theorem mem_insertKey {α} (p x : Str × α) (l : List (Str × α)) : x ∈ inse
   | cons q qs ih =>
     simp only [insertKey]
     split
-    · simp
     · simp only [List.mem_cons, ih]; exact ⟨fun h => by rcases h with h | h | h <;> simp [h], fun h => by rcases h with h | h | h <;> simp [h]⟩
+    · simp
 
 theorem mem_sortKeys {α} (x : Str × α) (l : List (Str × α)) : x ∈ sortKeys l ↔ x ∈ l := by
   induction l with
@@ -587,5 +587,539 @@ theorem clean_encWith (ind : Nat) : ∀ v, WF v → ∀ lvl, SegF (encWith numRe
           fun q => member ind (q.1, encWith numSpec ind (lvl + 1) q.2) := rfl
       rw [e1, e2, hj _ (follow_nl ind lvl '}' (by decide) _), clean_plain _ (plain_nl _ _), clean_cons (by decide) (by decide)]
       simp
+
+/-! ### numbers: text → token → value -/
+
+theorem td_of_digits (ds tl : Str) (h : allDigits ds = true) (ht : tl = [] ∨ ∃ c r, tl = c :: r ∧ isDigit c = false) :
+    takeDigits (ds ++ tl) = (ds, tl) := by
+  induction ds with
+  | nil =>
+    rcases ht with rfl | ⟨c, r, rfl, hc⟩
+    · rfl
+    · simp [takeDigits, hc]
+  | cons d ds ih =>
+    simp only [allDigits, Bool.and_eq_true] at h
+    simp [takeDigits, h.1, ih h.2]
+
+theorem natText_head (n : Nat) : ∃ c r, natText n = c :: r ∧ isDigit c = true ∧ (n ≠ 0 → c ≠ '0') ∧ (n = 0 → r = []) := by
+  induction n using Nat.strongRecOn with
+  | _ n ih =>
+    unfold natText
+    rw [Nat.toDigits_eq_if (by decide)]
+    split
+    · rename_i h
+      refine ⟨Nat.digitChar n, [], rfl, ?_, ?_, fun _ => rfl⟩
+      · simp [isDigit, Nat.isDigit_digitChar, h]
+      · intro hn
+        have : n = 1 ∨ n = 2 ∨ n = 3 ∨ n = 4 ∨ n = 5 ∨ n = 6 ∨ n = 7 ∨ n = 8 ∨ n = 9 := by omega
+        rcases this with rfl | rfl | rfl | rfl | rfl | rfl | rfl | rfl | rfl <;> decide
+    · rename_i h
+      obtain ⟨c, r, e, hd, h0, _⟩ := ih (n / 10) (by omega)
+      unfold natText at e
+      exact ⟨c, r ++ [Nat.digitChar (n % 10)], by rw [e]; rfl, hd, fun _ => h0 (by omega), fun h0 => by omega⟩
+
+theorem validInt_natText (n : Nat) : validInt (natText n) = true := by
+  obtain ⟨c, r, e, hd, h0, hz⟩ := natText_head n
+  have hall := natText_digits n
+  rw [e] at hall ⊢
+  cases r with
+  | nil => simpa [validInt] using hd
+  | cons d ds =>
+    have hn : n ≠ 0 := fun h => by cases hz h
+    simp only [allDigits, Bool.and_eq_true] at hall
+    simp [validInt, hd, h0 hn, allDigits, hall.2.1, hall.2.2]
+
+theorem ofDigits_natText (n : Nat) : Nat.ofDigitChars 10 (natText n) 0 = n := Nat.ofDigitChars_ten_toDigits
+
+theorem parseNum_natText (n : Nat) : parseNum (natText n) = some (.int n) := by
+  obtain ⟨c, r, e, hd, _, _⟩ := natText_head n
+  have hs : stripSign (natText n) = natText n := by
+    rw [e]; simp [stripSign, (isDigit_props hd).2.2.2.1]
+  have ht : takeDigits (natText n) = (natText n, []) := by
+    simpa using td_of_digits (natText n) [] (natText_digits n) (.inl rfl)
+  have hh : (natText n).head? ≠ some '-' := by rw [e]; simp [(isDigit_props hd).2.2.2.1]
+  simp [parseNum, hs, ht, validInt_natText, hh, ofDigits_natText]
+
+theorem parseNum_neg_natText (n : Nat) : parseNum ('-' :: natText n) = some (.int (-(n : Int))) := by
+  have ht : takeDigits (natText n) = (natText n, []) := by
+    simpa using td_of_digits (natText n) [] (natText_digits n) (.inl rfl)
+  simp [parseNum, stripSign, ht, validInt_natText, ofDigits_natText]
+
+theorem reprExp_jsonExp {x : Str} (h : reprExp x = true) : jsonExp x = true := by
+  match x, h with
+  | e :: s :: d1 :: d2 :: ds, h =>
+    simp only [reprExp, Bool.and_eq_true, Bool.or_eq_true, beq_iff_eq] at h
+    obtain ⟨⟨⟨⟨rfl, hs⟩, h1⟩, h2⟩, h3⟩ := h
+    rcases hs with rfl | rfl <;> simp [jsonExp, allDigits, h1, h2, h3]
+
+theorem reprTail_jsonTail (one : Bool) (tl : Str) (h : reprTail one tl = true) : jsonTail tl = true ∧ tl ≠ [] := by
+  cases tl with
+  | nil => simp [reprTail] at h
+  | cons c r =>
+    refine ⟨?_, by simp⟩
+    simp only [reprTail] at h
+    simp only [jsonTail]
+    split at h
+    · rename_i hc
+      simp only [hc, if_true]
+      simp only [Bool.and_eq_true] at h ⊢
+      refine ⟨h.1, ?_⟩
+      have h2 := h.2
+      split at h2
+      · simp [*]
+      · simp only [Bool.and_eq_true] at h2; simp [reprExp_jsonExp h2.2]
+    · rename_i hc
+      split at h
+      · simp only [Bool.and_eq_true] at h
+        simp [hc, reprExp_jsonExp h.2]
+      · cases h
+
+theorem parseNum_dec (t : Str) (h : reprDec t = true) : parseNum t = some (.dec t) := by
+  simp only [reprDec, Bool.and_eq_true] at h
+  obtain ⟨hj, hne⟩ := reprTail_jsonTail _ _ h.2
+  have : (takeDigits (stripSign t)).2.isEmpty = false := by
+    cases hh : (takeDigits (stripSign t)).2 with
+    | nil => exact absurd hh hne
+    | cons _ _ => rfl
+  simp [parseNum, h.1, this, hj]
+
+theorem parseNum_numSpec (n : JNum) (hn : ∀ t, n = .dec t → reprDec t = true) : parseNum (numSpec n) = some (normNum n) := by
+  cases n with
+  | int k =>
+    cases k with
+    | ofNat m => simpa [numSpec, intText, normNum] using parseNum_natText m
+    | negSucc m =>
+      have := parseNum_neg_natText (m + 1)
+      simp only [numSpec, intText, normNum]; rw [this]; congr 2
+  | fint neg k =>
+    cases neg
+    · simpa [numSpec, signText, normNum] using parseNum_natText k
+    · simpa [numSpec, signText, normNum] using parseNum_neg_natText k
+  | dec t => simpa [numSpec, normNum] using parseNum_dec t (hn t rfl)
+
+theorem numChar_mem {c : Char} (h : isNumChar c = true) :
+    c ∈ ['0', '1', '2', '3', '4', '5', '6', '7', '8', '9', '-', '+', '.', 'e', 'E'] := by
+  simp only [isNumChar, Bool.or_eq_true, beq_iff_eq] at h
+  rcases h with ((((h | rfl) | rfl) | rfl) | rfl) | rfl
+  · have := digit_mem h
+    simp only [List.mem_cons] at this ⊢
+    rcases this with h | h | h | h | h | h | h | h | h | h | h <;> simp_all
+  all_goals decide
+
+theorem numChar_props {c : Char} (h : isNumChar c = true) :
+    isTerm c = false ∧ isWs c = false ∧ c ≠ '"' ∧ c ≠ '[' ∧ c ≠ '{' ∧ c ≠ 'n' ∧ c ≠ 't' ∧ c ≠ 'f' ∧ c ≠ ']' ∧ c ≠ '}' := by
+  have key : ∀ d ∈ ['0', '1', '2', '3', '4', '5', '6', '7', '8', '9', '-', '+', '.', 'e', 'E'],
+      isTerm d = false ∧ isWs d = false ∧ d ≠ '"' ∧ d ≠ '[' ∧ d ≠ '{' ∧ d ≠ 'n' ∧ d ≠ 't' ∧ d ≠ 'f' ∧ d ≠ ']' ∧ d ≠ '}' := by decide
+  exact key c (numChar_mem h)
+
+theorem spanNum_append (t rest : Str) (ht : ∀ c ∈ t, isNumChar c = true) (hr : Follow rest) :
+    spanNum (t ++ rest) = (t, rest) := by
+  induction t with
+  | nil =>
+    cases rest with
+    | nil => rfl
+    | cons c r =>
+      have hc : isNumChar c = false := by
+        cases hh : isNumChar c with
+        | false => rfl
+        | true => have := (numChar_props hh).1; rw [show isTerm c = true from hr] at this; cases this
+      simp [spanNum, hc]
+  | cons d t ih =>
+    simp [spanNum, ht d (by simp), ih (fun c hc => ht c (by simp [hc]))]
+
+theorem numChars_of_digits {ds : Str} (h : allDigits ds = true) : ∀ c ∈ ds, isNumChar c = true :=
+  fun c hc => (isDigit_props ((allDigits_iff ds).mp h c hc)).2.2.2.2.1
+
+/-- a number token consists of number characters and starts with a digit or `-` -/
+theorem numSpec_chars (n : JNum) (hn : ∀ t, n = .dec t → reprDec t = true) :
+    (∀ c ∈ numSpec n, isNumChar c = true) ∧ ∃ c r, numSpec n = c :: r := by
+  have hnat (k : Nat) : (∀ c ∈ natText k, isNumChar c = true) := numChars_of_digits (natText_digits k)
+  have hneg (k : Nat) : (∀ c ∈ '-' :: natText k, isNumChar c = true) := by
+    intro c hc; rcases List.mem_cons.mp hc with rfl | hc
+    · decide
+    · exact hnat k c hc
+  have hne (k : Nat) : ∃ c r, natText k = c :: r := by
+    obtain ⟨c, r, e, _⟩ := natText_head k; exact ⟨c, r, e⟩
+  cases n with
+  | int k =>
+    cases k with
+    | ofNat m => exact ⟨hnat m, hne m⟩
+    | negSucc m => exact ⟨hneg (m + 1), _, _, rfl⟩
+  | fint neg k =>
+    cases neg
+    · exact ⟨by simpa [numSpec, signText] using hnat k, by simpa [numSpec, signText] using hne k⟩
+    · exact ⟨by simpa [numSpec, signText] using hneg k, _, _, rfl⟩
+  | dec t =>
+    obtain ⟨sg, ds, tl, rfl, hsg, hds, hdne, htl⟩ := reprDec_shape t (hn t rfl)
+    have hsgc : ∀ c ∈ sg, isNumChar c = true := by
+      rcases hsg with rfl | rfl
+      · simp
+      · intro c hc; simp at hc; subst hc; decide
+    have htlc : ∀ c ∈ tl, isNumChar c = true := by
+      rcases htl with ⟨fs, tl2, rfl, hfs, h2⟩ | he
+      · intro c hc
+        simp only [List.mem_cons, List.mem_append] at hc
+        rcases hc with rfl | hc | hc
+        · decide
+        · exact numChars_of_digits hfs c hc
+        · rcases h2 with ⟨rfl, _⟩ | he
+          · cases hc
+          · obtain ⟨_, r, rfl, hr⟩ := reprExp_plain he; exact hr c hc
+      · obtain ⟨_, r, rfl, hr⟩ := reprExp_plain he; exact hr
+    refine ⟨?_, ?_⟩
+    · intro c hc
+      simp only [numSpec, List.mem_append] at hc
+      rcases hc with hc | hc | hc
+      · exact hsgc c hc
+      · exact numChars_of_digits hds c hc
+      · exact htlc c hc
+    · simp only [numSpec]
+      rcases hsg with rfl | rfl
+      · cases ds with
+        | nil => exact absurd rfl hdne
+        | cons d ds => exact ⟨_, _, rfl⟩
+      · exact ⟨_, _, rfl⟩
+
+/-! ### the decoder on the layout of the encoder -/
+
+theorem skipWs_cons {c : Char} (h : isWs c = false) (r : Str) : skipWs (c :: r) = c :: r := by simp [skipWs, h]
+
+theorem skipWs_idem (cs : Str) : skipWs (skipWs cs) = skipWs cs := by
+  induction cs with
+  | nil => rfl
+  | cons c cs ih =>
+    simp only [skipWs]
+    split
+    · exact ih
+    · rename_i h; simp [skipWs, h]
+
+theorem skipWs_ws (w t : Str) (hw : ∀ c ∈ w, isWs c = true) : skipWs (w ++ t) = skipWs t := by
+  induction w with
+  | nil => rfl
+  | cons c w ih => simp [skipWs, hw c (by simp), ih (fun d hd => hw d (by simp [hd]))]
+
+theorem ws_nl (ind lvl : Nat) : ∀ c ∈ nl ind lvl, isWs c = true := by
+  unfold nl; split
+  · simp
+  · intro c hc
+    simp only [List.mem_cons, List.mem_replicate] at hc
+    rcases hc with rfl | ⟨_, rfl⟩ <;> decide
+
+theorem parseVal_skip (f : Nat) (cs : Str) : parseVal f (skipWs cs) = parseVal f cs := by
+  cases f <;> simp [parseVal, skipWs_idem]
+
+theorem parseVal_ws (f : Nat) (w t : Str) (hw : ∀ c ∈ w, isWs c = true) : parseVal f (w ++ t) = parseVal f t := by
+  rw [← parseVal_skip, skipWs_ws w t hw, parseVal_skip]
+
+theorem parseElems_skip (f : Nat) (cs : Str) : parseElems f (skipWs cs) = parseElems f cs := by
+  cases f <;> simp [parseElems, parseVal_skip]
+
+theorem parseMembers_skip (f : Nat) (cs : Str) : parseMembers f (skipWs cs) = parseMembers f cs := by
+  cases f <;> simp [parseMembers, skipWs_idem]
+
+theorem parseVal_atom (f : Nat) {c : Char} (r : Str) (hw : isWs c = false) (h1 : c ≠ '[') (h2 : c ≠ '{') :
+    parseVal f (c :: r) = parseAtom (c :: r) := by
+  cases f <;> simp [parseVal, skipWs_cons hw, h1, h2]
+
+/-- `ParseOK e v`: the text `e` parses to `v` with enough fuel in any context that starts with a terminator -/
+def ParseOK (e : Str) (v : JValue) : Prop :=
+  ∀ f rest, e.length ≤ f → Follow rest → parseVal f (e ++ rest) = some (v, rest)
+
+theorem follow_close (ind lvl : Nat) (c : Char) (hc : isTerm c = true) (r : Str) : Follow (nl ind lvl ++ c :: r) :=
+  follow_nl ind lvl c hc r
+
+theorem skipWs_close (ind lvl : Nat) {c : Char} (hc : isWs c = false) (r : Str) : skipWs (nl ind lvl ++ c :: r) = c :: r := by
+  rw [skipWs_ws _ _ (ws_nl ind lvl), skipWs_cons hc]
+
+theorem length_joinItems_cons (sep x : Str) (y : Str) (ys : List Str) :
+    (joinItems sep (x :: y :: ys)).length = x.length + sep.length + (joinItems sep (y :: ys)).length := by
+  simp [joinItems, Nat.add_assoc]
+
+theorem parseElems_join {α} (e : α → Str) (nv : α → JValue) (ind lvl lvl' : Nat) (rest : Str) :
+    ∀ xs : List α, xs ≠ [] → (∀ x ∈ xs, ParseOK (e x) (nv x)) → ∀ f,
+      (joinItems (',' :: nl ind lvl) (xs.map e)).length + 1 ≤ f →
+      parseElems f (joinItems (',' :: nl ind lvl) (xs.map e) ++ (nl ind lvl' ++ ']' :: rest)) = some (xs.map nv, rest)
+  | [], h, _, _, _ => absurd rfl h
+  | [x], _, h, f, hf => by
+    cases f with
+    | zero => simp at hf
+    | succ f =>
+      simp only [List.map_cons, List.map_nil, joinItems] at hf ⊢
+      rw [parseElems, h x (by simp) f _ (by omega) (follow_close ind lvl' ']' (by decide) rest)]
+      simp [skipWs_close ind lvl' (c := ']') (by decide)]
+  | x :: y :: ys, _, h, f, hf => by
+    cases f with
+    | zero => simp at hf
+    | succ f =>
+      have ih := parseElems_join e nv ind lvl lvl' rest (y :: ys) (by simp) (fun z hz => h z (by simp [hz])) f
+      simp only [List.map_cons, length_joinItems_cons, List.length_cons] at hf ih ⊢
+      simp only [joinItems, List.append_assoc, List.cons_append]
+      rw [parseElems, h x (by simp) f _ (by omega) (by show isTerm ',' = true; decide)]
+      simp only [skipWs_cons (c := ',') (by decide), if_true]
+      rw [← parseElems_skip, skipWs_ws _ _ (ws_nl ind lvl), parseElems_skip]
+      rw [ih (by omega)]
+
+theorem colon_split (ind : Nat) : ∃ w, colon ind = ':' :: w ∧ ∀ c ∈ w, isWs c = true := by
+  unfold colon; split
+  · exact ⟨[], rfl, by simp⟩
+  · exact ⟨[' '], rfl, by simp; decide⟩
+
+theorem member_length (ind : Nat) (k t : Str) : t.length + 1 ≤ (member ind (k, t)).length := by
+  simp [member, encStr]; omega
+
+theorem parseMembers_join (e : JValue → Str) (nv : JValue → JValue) (ind lvl lvl' : Nat) (rest : Str) :
+    ∀ ms : List (Str × JValue), ms ≠ [] → (∀ p ∈ ms, ParseOK (e p.2) (nv p.2)) → ∀ f,
+      (joinItems (',' :: nl ind lvl) (ms.map fun q => member ind (q.1, e q.2))).length + 1 ≤ f →
+      parseMembers f (joinItems (',' :: nl ind lvl) (ms.map fun q => member ind (q.1, e q.2)) ++ (nl ind lvl' ++ '}' :: rest)) =
+        some (ms.map fun q => (q.1, nv q.2), rest)
+  | [], h, _, _, _ => absurd rfl h
+  | [p], _, h, f, hf => by
+    obtain ⟨k, v⟩ := p
+    obtain ⟨w, hc, hw⟩ := colon_split ind
+    cases f with
+    | zero => simp at hf
+    | succ f =>
+      simp only [List.map_cons, List.map_nil, joinItems] at hf ⊢
+      have hl := member_length ind k (e v)
+      have hm : member ind (k, e v) = '"' :: (escBody k ++ '"' :: ':' :: (w ++ e v)) := by simp [member, encStr, hc]
+      rw [hm]
+      simp only [List.cons_append, List.append_assoc]
+      rw [parseMembers, skipWs_cons (c := '"') (by decide)]
+      simp only [if_true, unesc_body, skipWs_cons (c := ':') (by decide)]
+      rw [parseVal_ws f w _ hw, h (k, v) (by simp) f _ (by show (e v).length ≤ f; omega) (follow_close ind lvl' '}' (by decide) rest)]
+      simp [skipWs_close ind lvl' (c := '}') (by decide)]
+  | p :: q :: ms, _, h, f, hf => by
+    obtain ⟨k, v⟩ := p
+    obtain ⟨w, hc, hw⟩ := colon_split ind
+    cases f with
+    | zero => simp at hf
+    | succ f =>
+      have ih := parseMembers_join e nv ind lvl lvl' rest (q :: ms) (by simp) (fun z hz => h z (by simp [hz])) f
+      simp only [List.map_cons, length_joinItems_cons, List.length_cons] at hf ih ⊢
+      have hl := member_length ind k (e v)
+      have hm : member ind (k, e v) = '"' :: (escBody k ++ '"' :: ':' :: (w ++ e v)) := by simp [member, encStr, hc]
+      simp only [joinItems, List.append_assoc, List.cons_append]
+      rw [hm]
+      simp only [List.cons_append, List.append_assoc]
+      rw [parseMembers, skipWs_cons (c := '"') (by decide)]
+      simp only [if_true, unesc_body, skipWs_cons (c := ':') (by decide)]
+      rw [parseVal_ws f w _ hw, h (k, v) (by simp) f _ (by show (e v).length ≤ f; omega) (by show isTerm ',' = true; decide)]
+      simp only [skipWs_cons (c := ',') (by decide), if_true]
+      rw [← parseMembers_skip, skipWs_ws _ _ (ws_nl ind lvl), parseMembers_skip]
+      rw [ih (by omega)]
+
+theorem length_sortKeys {α} (l : List (Str × α)) : (sortKeys l).length = l.length := by
+  have hi : ∀ (p : Str × α) (l : List (Str × α)), (insertKey p l).length = l.length + 1 := by
+    intro p l
+    induction l with
+    | nil => rfl
+    | cons q qs ih => simp only [insertKey]; split <;> simp [ih]
+  induction l with
+  | nil => rfl
+  | cons p ps ih => simp [sortKeys, hi, ih]
+
+theorem joinItems_head (sep a : Str) (l : List Str) : ∃ t, joinItems sep (a :: l) = a ++ t := by
+  cases l with
+  | nil => exact ⟨[], by simp [joinItems]⟩
+  | cons b l => exact ⟨sep ++ joinItems sep (b :: l), by simp [joinItems]⟩
+
+/-- every encoded value starts with a character that is neither white space nor a closing bracket -/
+theorem enc_head (ind lvl : Nat) (v : JValue) (h : WF v) :
+    ∃ c r, encWith numSpec ind lvl v = c :: r ∧ isWs c = false ∧ c ≠ ']' := by
+  cases v with
+  | null => exact ⟨_, _, rfl, by decide, by decide⟩
+  | bool b => cases b <;> exact ⟨_, _, rfl, by decide, by decide⟩
+  | num n =>
+    have hn : ∀ t, n = .dec t → reprDec t = true := by rintro t rfl; simpa [WF] using h
+    obtain ⟨hch, c, r, e⟩ := numSpec_chars n hn
+    have hc := numChar_props (hch c (by rw [e]; simp))
+    exact ⟨c, r, by simpa [encWith] using e, hc.2.1, hc.2.2.2.2.2.2.2.2.1⟩
+  | str s => exact ⟨_, _, rfl, by decide, by decide⟩
+  | arr xs => cases xs <;> exact ⟨_, _, rfl, by decide, by decide⟩
+  | obj kvs => cases kvs <;> exact ⟨_, _, rfl, by decide, by decide⟩
+
+/-- **decode ∘ spec-encode = norm**, in any context that starts with a terminator -/
+theorem parse_encWith (ind : Nat) : ∀ v, WF v → ∀ lvl, ParseOK (encWith numSpec ind lvl v) (norm v) := by
+  intro v
+  induction v using valInd with
+  | hnull => intro _ lvl f rest _ _; rw [encWith, List.cons_append, parseVal_atom f _ (by decide) (by decide) (by decide)]; simp [parseAtom, norm]
+  | hbool b =>
+    intro _ lvl f rest _ _
+    cases b <;> (rw [encWith, List.cons_append, parseVal_atom f _ (by decide) (by decide) (by decide)]; simp [parseAtom, norm])
+  | hnum n =>
+    intro h lvl f rest _ hr
+    have hn : ∀ t, n = .dec t → reprDec t = true := by rintro t rfl; simpa [WF] using h
+    obtain ⟨hch, c, r, e⟩ := numSpec_chars n hn
+    have hc := numChar_props (hch c (by rw [e]; simp))
+    have hsp := spanNum_append _ rest hch hr
+    simp only [encWith]
+    rw [e, List.cons_append, parseVal_atom f _ hc.2.1 hc.2.2.2.1 hc.2.2.2.2.1]
+    rw [e, List.cons_append] at hsp
+    simp only [parseAtom, hc.2.2.1, hc.2.2.2.2.2.1, hc.2.2.2.2.2.2.1, hc.2.2.2.2.2.2.2.1, if_false, hsp]
+    rw [← e, parseNum_numSpec n hn]; simp [norm]
+  | hstr s =>
+    intro _ lvl f rest _ _
+    simp only [encWith, encStr, List.cons_append, List.append_assoc, List.nil_append]
+    rw [parseVal_atom f _ (by decide) (by decide) (by decide)]
+    simp [parseAtom, unesc_body, norm]
+  | harr xs ih =>
+    intro h lvl f rest hf hr
+    cases xs with
+    | nil =>
+      cases f with
+      | zero => simp [encWith] at hf
+      | succ f => simp [encWith, parseVal, skipWs, isWs, norm, normList]
+    | cons x xs =>
+      have hw := (wfList_iff _).mp (by simpa [WF] using h)
+      cases f with
+      | zero => simp [encWith] at hf
+      | succ f =>
+        have hj := parseElems_join (encWith numSpec ind (lvl + 1)) norm ind (lvl + 1) lvl rest (x :: xs) (by simp)
+          (fun y hy => ih y hy (hw y hy) (lvl + 1)) f
+        obtain ⟨c, r, ec, hcw, hcb⟩ := enc_head ind (lvl + 1) x (hw x (by simp))
+        obtain ⟨t, et⟩ := joinItems_head (',' :: nl ind (lvl + 1)) (encWith numSpec ind (lvl + 1) x) (xs.map (encWith numSpec ind (lvl + 1)))
+        simp only [encWith, encList_eq, List.cons_append, List.append_assoc, List.nil_append, List.length_cons,
+          List.length_append, List.length_nil] at hf hj ⊢
+        rw [parseVal, skipWs_cons (c := '[') (by decide)]
+        simp only [if_true, skipWs_ws _ _ (ws_nl ind (lvl + 1))]
+        have hT : ∃ r', joinItems (',' :: nl ind (lvl + 1)) (List.map (encWith numSpec ind (lvl + 1)) (x :: xs)) ++
+            (nl ind lvl ++ ']' :: rest) = c :: r' :=
+          ⟨r ++ t ++ (nl ind lvl ++ ']' :: rest), by simp only [List.map_cons]; rw [et, ec]; simp⟩
+        obtain ⟨r', hT⟩ := hT
+        rw [hT, skipWs_cons hcw]
+        simp only [hcb, if_false]
+        rw [← hT, hj (by omega)]
+        simp [norm, normList_eq]
+  | hobj kvs ih =>
+    intro h lvl f rest hf hr
+    cases kvs with
+    | nil =>
+      cases f with
+      | zero => simp [encWith] at hf
+      | succ f => simp [encWith, parseVal, skipWs, isWs, norm, normMembers, sortKeys]
+    | cons p ps =>
+      have hw := (wfMembers_iff _).mp (by simpa [WF] using h.2)
+      cases f with
+      | zero => simp [encWith] at hf
+      | succ f =>
+        have hne : sortKeys (p :: ps) ≠ [] := sortKeys_ne_nil p ps
+        have hj := parseMembers_join (encWith numSpec ind (lvl + 1)) norm ind (lvl + 1) lvl rest (sortKeys (p :: ps)) hne
+          (fun q hq => ih q ((mem_sortKeys q _).mp hq) (hw q ((mem_sortKeys q _).mp hq)) (lvl + 1)) f
+        have e1 : (member ind ∘ fun q : Str × JValue => (q.1, encWith numSpec ind (lvl + 1) q.2)) =
+            fun q => member ind (q.1, encWith numSpec ind (lvl + 1) q.2) := rfl
+        simp only [encWith, encMembers_eq, sortKeys_map, List.map_map, e1, List.cons_append, List.append_assoc, List.nil_append,
+          List.length_cons, List.length_append, List.length_nil] at hf hj ⊢
+        rw [parseVal, skipWs_cons (c := '{') (by decide)]
+        simp only [show ¬ ('{' = '[') by decide, if_false, if_true, skipWs_ws _ _ (ws_nl ind (lvl + 1))]
+        have hT : ∃ r', joinItems (',' :: nl ind (lvl + 1))
+              (List.map (fun q => member ind (q.1, encWith numSpec ind (lvl + 1) q.2)) (sortKeys (p :: ps))) ++
+            (nl ind lvl ++ '}' :: rest) = '"' :: r' := by
+          cases hs : sortKeys (p :: ps) with
+          | nil => exact absurd hs hne
+          | cons q qs =>
+            obtain ⟨t, et⟩ := joinItems_head (',' :: nl ind (lvl + 1)) (member ind (q.1, encWith numSpec ind (lvl + 1) q.2))
+              (qs.map fun q => member ind (q.1, encWith numSpec ind (lvl + 1) q.2))
+            exact ⟨escBody q.1 ++ '"' :: (colon ind ++ (encWith numSpec ind (lvl + 1) q.2 ++ (t ++ (nl ind lvl ++ '}' :: rest)))),
+              by simp only [List.map_cons, et]; simp [member, encStr]⟩
+        obtain ⟨r', hT⟩ := hT
+        rw [hT, skipWs_cons (c := '"') (by decide)]
+        simp only [show ¬ ('"' = '}') by decide, if_false]
+        rw [← hT, hj (by omega)]
+        simp only [norm, normMembers_eq]
+        rw [sortKeys_map norm (p :: ps)]
+
+/-! ### sorted keys -/
+
+theorem str_le_of_lt {a b : Str} (h : a < b) : a ≤ b := List.le_of_lt h
+theorem str_le_trans {a b c : Str} (h1 : a ≤ b) (h2 : b ≤ c) : a ≤ c := List.le_trans h1 h2
+theorem str_le_of_not_lt {a b : Str} (h : ¬ a < b) : b ≤ a := List.not_lt.mp h
+
+theorem insertKey_sorted {α} (p : Str × α) (l : List (Str × α)) (h : l.Pairwise (fun a b => a.1 ≤ b.1)) :
+    (insertKey p l).Pairwise (fun a b => a.1 ≤ b.1) := by
+  induction l with
+  | nil => simp [insertKey]
+  | cons q qs ih =>
+    rw [List.pairwise_cons] at h
+    simp only [insertKey]
+    split
+    · rename_i hlt
+      refine List.pairwise_cons.mpr ⟨?_, ih h.2⟩
+      intro x hx
+      rcases (mem_insertKey p x qs).mp hx with rfl | hx
+      · exact str_le_of_lt hlt
+      · exact h.1 x hx
+    · rename_i hnlt
+      have hpq : p.1 ≤ q.1 := str_le_of_not_lt hnlt
+      refine List.pairwise_cons.mpr ⟨?_, List.pairwise_cons.mpr h⟩
+      intro x hx
+      rcases List.mem_cons.mp hx with rfl | hx
+      · exact hpq
+      · exact str_le_trans hpq (h.1 x hx)
+
+theorem sortKeys_sorted {α} (l : List (Str × α)) : (sortKeys l).Pairwise (fun a b => a.1 ≤ b.1) := by
+  induction l with
+  | nil => simp [sortKeys]
+  | cons p ps ih => exact insertKey_sorted p _ ih
+
+theorem keysSortedList_iff (xs : List JValue) : KeysSortedList xs ↔ ∀ x ∈ xs, KeysSorted x := by
+  induction xs with
+  | nil => simp [KeysSortedList]
+  | cons x xs ih => simp [KeysSortedList, ih]
+
+theorem keysSortedMembers_iff (kvs : List (Str × JValue)) : KeysSortedMembers kvs ↔ ∀ p ∈ kvs, KeysSorted p.2 := by
+  induction kvs with
+  | nil => simp [KeysSortedMembers]
+  | cons p kvs ih => obtain ⟨k, v⟩ := p; simp [KeysSortedMembers, ih]
+
+theorem keysSorted_norm (v : JValue) : KeysSorted (norm v) := by
+  induction v using valInd with
+  | hnull => simp [norm, KeysSorted]
+  | hbool b => simp [norm, KeysSorted]
+  | hnum n => simp [norm, KeysSorted]
+  | hstr s => simp [norm, KeysSorted]
+  | harr xs ih =>
+    simp only [norm, KeysSorted, normList_eq, keysSortedList_iff]
+    intro x hx
+    obtain ⟨y, hy, rfl⟩ := List.mem_map.mp hx
+    exact ih y hy
+  | hobj kvs ih =>
+    simp only [norm, KeysSorted, normMembers_eq, keysSortedMembers_iff]
+    refine ⟨sortKeys_sorted _, ?_⟩
+    intro p hp
+    obtain ⟨q, hq, rfl⟩ := List.mem_map.mp ((mem_sortKeys p _).mp hp)
+    exact ih q hq
+
+/-! ### `norm` is idempotent -/
+
+theorem sortKeys_of_sorted {α} (l : List (Str × α)) (h : l.Pairwise (fun a b => a.1 ≤ b.1)) : sortKeys l = l := by
+  induction l with
+  | nil => rfl
+  | cons p ps ih =>
+    rw [List.pairwise_cons] at h
+    rw [sortKeys, ih h.2]
+    cases ps with
+    | nil => rfl
+    | cons q qs =>
+      have : ¬ q.1 < p.1 := List.not_lt.mpr (h.1 q (by simp))
+      simp [insertKey, this]
+
+theorem sortKeys_idem {α} (l : List (Str × α)) : sortKeys (sortKeys l) = sortKeys l :=
+  sortKeys_of_sorted _ (sortKeys_sorted l)
+
+theorem norm_norm (v : JValue) : norm (norm v) = norm v := by
+  induction v using valInd with
+  | hnull => rfl
+  | hbool b => rfl
+  | hnum n => cases n <;> rfl
+  | hstr s => rfl
+  | harr xs ih =>
+    simp only [norm, normList_eq, List.map_map]
+    congr 1
+    exact List.map_congr_left fun x hx => ih x hx
+  | hobj kvs ih =>
+    simp only [norm, normMembers_eq]
+    rw [← sortKeys_map norm, sortKeys_idem, List.map_map]
+    congr 2
+    exact List.map_congr_left fun p hp => by simp [ih p hp]
 
 end C14
